@@ -11,3 +11,6 @@ PROOF_FILES = [f for f in ['theories/Spec.v', 'proofs/C02Proofs.v'] if os.path.e
 
 def main(tier, seed):
     return icheck.run(PROP, tier, seed, genchart.Profile(p_hist_target=0.1, p_orth=0.4, p_history=0.35, p_contract=0.05, max_states=14, alt=[(0.2, genchart.parallel_profile(p_history=0.3, p_sibling_target=0.5)), (0.1, genchart.nested_parallel_chart)]), ifam.ScenarioSpec(p_queue=0.4, p_bits=0.2), icheck.interest_c02, PROOF_FILES, assumptions=['DESIGN.md section 2 well-formedness'])
+
+
+replay = icheck.replay
